@@ -86,7 +86,7 @@ def run(prog, tier):
     if not c3d:
         raise AnalysisBroken('class ezc3d::c3d vanished')
     handles = [fl for fl in c3d['fields'] if fl['own'] != 'value']
-    res.minimum('pointer/handle members of c3d', len(handles), 4)
+    res.minimum('pointer/handle members of c3d', len(handles), 3)
     ctors = [f for f in prog.repo_funcs() if f.cls == 'ezc3d::c3d' and f.kind == 'ctor']
     res.minimum('c3d constructors', len(ctors), 2)
     for fl in handles:
